@@ -467,7 +467,7 @@ func withPathEnv(env map[ssa.Value]string, f func()) {
 }
 
 func accessPathD(v ssa.Value, depth int) string {
-	if depth > 12 {
+	if depth > 36 {
 		return "?deep"
 	}
 	if pathEnv != nil {
@@ -939,10 +939,11 @@ func sortStrings(s []string) {
 // before reaching a function exit (Return / Panic) or an instruction satisfying bad.
 // Returns ok and, when not ok, the offending instruction.
 func allPathsHit(start ssa.Instruction, hit func(ssa.Instruction) bool, bad func(ssa.Instruction) bool) (bool, ssa.Instruction) {
-	seen := map[*ssa.BasicBlock]bool{}
+	type st struct{ b, pred *ssa.BasicBlock }
+	seen := map[st]bool{}
 	var fail ssa.Instruction
-	var walk func(b *ssa.BasicBlock, from int) bool
-	walk = func(b *ssa.BasicBlock, from int) bool {
+	var walk func(b *ssa.BasicBlock, from int, pred *ssa.BasicBlock) bool
+	walk = func(b *ssa.BasicBlock, from int, pred *ssa.BasicBlock) bool {
 		for i := from; i < len(b.Instrs); i++ {
 			ins := b.Instrs[i]
 			if hit(ins) {
@@ -958,18 +959,41 @@ func allPathsHit(start ssa.Instruction, hit func(ssa.Instruction) bool, bad func
 				return false
 			}
 		}
-		for _, s := range b.Succs {
-			if seen[s] {
+		// a branch on a boolean phi of this very block whose incoming value on the edge we came through is a constant
+		// (the `stop` / `ok` result of an inlined helper) has only one feasible successor
+		only := -1
+		if ifi, ok := b.Instrs[len(b.Instrs)-1].(*ssa.If); ok && pred != nil {
+			cond, pos := stripNot(ifi.Cond, true)
+			if phi, ok := cond.(*ssa.Phi); ok && phi.Block() == b {
+				for k, p := range b.Preds {
+					if p != pred {
+						continue
+					}
+					if cv, ok := phi.Edges[k].(*ssa.Const); ok && cv.Value != nil && cv.Value.Kind() == constant.Bool {
+						if constant.BoolVal(cv.Value) == pos {
+							only = 0
+						} else {
+							only = 1
+						}
+					}
+				}
+			}
+		}
+		for k, s := range b.Succs {
+			if only >= 0 && k != only {
 				continue
 			}
-			seen[s] = true
-			if !walk(s, 0) {
+			if seen[st{s, b}] {
+				continue
+			}
+			seen[st{s, b}] = true
+			if !walk(s, 0, b) {
 				return false
 			}
 		}
 		return true
 	}
-	ok := walk(start.Block(), instrIndex(start)+1)
+	ok := walk(start.Block(), instrIndex(start)+1, nil)
 	return ok, fail
 }
 
